@@ -60,7 +60,7 @@ class TModel:
         tp.reset_runtime()
         if self.mode == OP and tp.valid():
             tp.active = True
-            tp.I = tp.inhibit * self.inh_unit
+            tp.I = tp.inhibit * self.inh_unit if tp.typ >= 254 else 0      # a synchronous TPDO goes out on every n-th SYNC, whatever 18xxh:3 says
             tp.E = tp.event * self.ev_unit if tp.typ >= 254 else 0
             if tp.E > 0:
                 tp.ev_window = (t + tp.E, t + tp.E + NT - 1)
